@@ -74,6 +74,9 @@ def run(ctx):
     rules.launch_sites(ctx, which=("potential",))
     c06.piola(ctx)  # the Maxwell kernels read the Piola-mapped functions and edge lengths from these helpers
     c11.edge_convention(ctx)
+    from .. import spaces as _spaces
+
+    _spaces.localised_inherit(ctx)  # singular parts, sparse forms, potentials and FMM point maps are computed on the localised companion space
 
 
 def far_field(ctx, reg):
